@@ -46,9 +46,12 @@ func decide(t fataler, s *graph.Scenario, plans map[int]graph.WrapPlan, tag stri
 			plain = false
 		}
 	}
-	if plain {
+	switch {
+	case plain:
 		in.Extra = append(in.Extra, &graph.PlainWrapPP{Plan: wrap.Plan})
-	} else {
+	case strings.Contains(tag, "+orderedwrap"):
+		in.Extra = append(in.Extra, &graph.OrderedWrapPP{WrapPP: wrap})
+	default:
 		in.Extra = append(in.Extra, wrap)
 	}
 	// hand-wired components: some single-valued points already hold their (only) target before the start.
@@ -70,10 +73,37 @@ func decide(t fataler, s *graph.Scenario, plans map[int]graph.WrapPlan, tag stri
 		}
 	}
 	if withObs {
-		in.Extra = append(in.Extra, &graph.ObsPP{Tag: "c03", Log: in.Log}, &graph.OrderedObsPP{ObsPP: graph.ObsPP{Tag: "c03o", Log: in.Log, OrderV: 1}})
+		nb := strings.Contains(tag, "+instlookup") // a tolerated failed lookup may be followed by another attempt: no once-per-name budget
+		in.Extra = append(in.Extra, &graph.ObsPP{Tag: "c03", Log: in.Log, NoBudget: nb}, &graph.OrderedObsPP{ObsPP: graph.ObsPP{Tag: "c03o", Log: in.Log, OrderV: 1, NoBudget: nb}})
+	}
+	var looker *graph.ObsPP
+	// a post-processor that resolves a collaborator programmatically while a component is being populated (its
+	// after-instantiation callback asks the container for the next node by name; a failure is the processor's business)
+	if strings.Contains(tag, "+instlookup") {
+		looker = &graph.ObsPP{Tag: "c03-looker", Log: in.Log, InstLookup: map[string]string{}, NoBudget: true}
+		for i := range s.Nodes {
+			if (uint64(i)+s.OrdSeed)%3 != 0 {
+				from, _ := model.NameOf(in.Comps[i])
+				to, _ := model.NameOf(in.Comps[(i+1+int(s.OrdSeed%2))%len(s.Nodes)])
+				looker.InstLookup[from] = to
+			}
+		}
+		in.Extra = append(in.Extra, looker)
 	}
 	in.Run()
 	desc := tag + " " + s.Shape() + " plans=" + strings.Join(pl, ",")
+	if looker != nil {
+		desc += fmt.Sprintf(" inst-lookups=%v", looker.InstLooked)
+		for _, l := range looker.InstLooked {
+			if strings.HasSuffix(l, "err=true") {
+				// a creation failed inside the start and the failure was tolerated: whatever is created again afterwards
+				// is the retry territory of the known findings (excluded by construction, counted)
+				kit.Rec.Exclude("tolerated-failed-lookup-inside-start")
+				kit.Rec.Case(desc, false, "tolerated-failed-lookup")
+				return
+			}
+		}
+	}
 	if in.Out.Panic != nil {
 		if b, ok := in.Out.Panic.(graph.BudgetExceeded); ok {
 			t.Fatalf("C03: start-up did not terminate: %v\n%s", b, desc)
@@ -136,6 +166,16 @@ func decide(t fataler, s *graph.Scenario, plans map[int]graph.WrapPlan, tag stri
 		if pl, ok := wrap.Plan[c.Name]; ok && !plain && (pl.Inst == graph.WrapNew || pl.After == graph.WrapNew) {
 			if _, isW := got.(*zoo.W); !isW {
 				t.Fatalf("C03: %q is replaced by the post-processor (plan %v), yet the lookup returns the replaced object %T\n%s", c.Name, pl, got, desc)
+			}
+		}
+	}
+	if looker != nil {
+		for _, l := range looker.InstLooked {
+			if strings.HasSuffix(l, "err=true") {
+				// (the same exclusion as above, for creations triggered by the lookups after the start)
+				kit.Rec.Exclude("tolerated-failed-lookup-inside-start")
+				kit.Rec.Case(desc, false, "tolerated-failed-lookup")
+				return
 			}
 		}
 	}
@@ -241,6 +281,12 @@ func TestRandom(t *testing.T) {
 		}
 		if rapid.IntRange(0, 3).Draw(t, "prewired") == 0 {
 			tag += "+prewired"
+		}
+		if rapid.IntRange(0, 3).Draw(t, "instlookup") == 0 {
+			tag += "+instlookup"
+		}
+		if rapid.IntRange(0, 2).Draw(t, "orderedwrap") == 0 {
+			tag += "+orderedwrap" // the substituting processor is active while unordered post-processor nodes are prepared
 		}
 		decide(t, s, plans, tag)
 	})
@@ -737,6 +783,98 @@ func TestStaticSameTypeCopyOnCycle(t *testing.T) {
 				}
 			}
 			kit.Rec.Case(desc, true, "same-type-copy-on-cycle", "started")
+		}
+	}
+}
+
+// ---------------------------------------------------------------------------------------------------
+// Substitution while the post-processors themselves are being prepared: a (non-lazy) post-processor component wires
+// a collaborator that is the first-created member of a cycle; another post-processor - ordered, so already active -
+// substitutes that collaborator. The stale-version rule holds in that phase as in any other.
+
+type PrepIf interface{ isPrep() }
+type PrepA struct {
+	B PrepIf `wire:"prep-b"`
+}
+type PrepB struct {
+	A PrepIf `wire:"prep-a"`
+}
+type PrepW struct{ Target any }
+
+func (*PrepA) isPrep()        {}
+func (*PrepB) isPrep()        {}
+func (*PrepW) isPrep()        {}
+func (*PrepA) Naming() string { return "prep-a" }
+func (*PrepB) Naming() string { return "prep-b" }
+
+type prepHolderPP struct {
+	Dep PrepIf `wire:"prep-a"`
+}
+
+func (*prepHolderPP) Naming() string                                               { return "prep-holder-pp" }
+func (*prepHolderPP) PostProcessBeforeInitialization(c any, n string) (any, error) { return c, nil }
+func (*prepHolderPP) PostProcessAfterInitialization(c any, n string) (any, error)  { return c, nil }
+
+type prepSubstPP struct {
+	processors.DefaultInstantiationAwareComponentPostProcessor
+	mode string // "after" | "early" | "both-same"
+	w    *PrepW
+}
+
+func (*prepSubstPP) Naming() string { return "prep-subst-pp" }
+func (*prepSubstPP) Order() int     { return -5 }
+func (p *prepSubstPP) GetEarlyBeanReference(c any, n string) (any, error) {
+	if n == "prep-a" && (p.mode == "early" || p.mode == "both-same") {
+		p.w = &PrepW{Target: c}
+		return p.w, nil
+	}
+	return c, nil
+}
+func (p *prepSubstPP) PostProcessAfterInitialization(c any, n string) (any, error) {
+	if n == "prep-a" {
+		switch p.mode {
+		case "after":
+			return &PrepW{Target: c}, nil
+		case "both-same":
+			if p.w != nil {
+				return p.w, nil
+			}
+			return &PrepW{Target: c}, nil
+		}
+	}
+	return c, nil
+}
+
+func TestStaticSubstitutionDuringPreparation(t *testing.T) {
+	kit.Rec.Rule(rule)
+	for _, mode := range []string{"after", "early", "both-same", "none"} {
+		for _, withHolder := range []bool{true, false} {
+			a, b, h := &PrepA{}, &PrepB{}, &prepHolderPP{}
+			comps := []any{a, b, &prepSubstPP{mode: mode}}
+			if withHolder {
+				comps = append(comps, h)
+			}
+			out := kit.RunApp(app.SetComponents(comps...))
+			desc := fmt.Sprintf("prep-a <-> prep-b; prep-a substituted (%s) by an ordered post-processor; a post-processor component wires prep-a: %v", mode, withHolder)
+			if out.Panic != nil {
+				t.Fatalf("C03: start-up panicked: %v (%s)", out.Panic, desc)
+			}
+			if out.Err != nil {
+				kit.Rec.Case(desc, true, "substitution-during-preparation", "refused")
+				continue
+			}
+			final, _ := out.App.GetComponentByName("prep-a")
+			holders := map[string]any{"prep-b.A": b.A}
+			if withHolder {
+				holders["prep-holder-pp.Dep"] = h.Dep
+			}
+			for where, got := range holders {
+				if got != final {
+					kit.DumpReplay("c03-substitution-during-preparation", map[string]any{"scenario": desc, "holder": where, "holds": fmt.Sprintf("%T %p", got, got), "published": fmt.Sprintf("%T %p", final, final)})
+					t.Fatalf("C03: the start succeeded, the container publishes prep-a = %T %p, yet %s holds %T %p: a stale version survives (%s)", final, final, where, got, got, desc)
+				}
+			}
+			kit.Rec.Case(desc, true, "substitution-during-preparation", "started")
 		}
 	}
 }
